@@ -65,6 +65,30 @@ if "C05" in which:
         ("c05_with_pending", "with_pending_sum", "[R] holdings-with-pending is the sum of the two, absent = 0."),
     ])
 
+IMPF = """From Coq Require Import ZArith NArith List Bool String Floats.
+From Flocq Require Import IEEE754.BinarySingleNaN IEEE754.PrimFloat.
+From Alator Require Import Model.Num Model.Quirks Model.Cost Model.Exchange Model.Uist Model.Broker
+  Proofs.BrokerLedgerProofs Proofs.FloatExact.
+Import ListNotations."""
+if "C05" in which:
+    gen("C05float", "C05 at the IEEE instance, whole shares — the case the property names. Statements only. "
+        "`int_float x n` says the binary64 value x is finite and equals the integer n (Flocq's B2R of Coq's primitive "
+        "float). No rounding anywhere: for whole-share quantities whose running totals stay below 2^53 the float "
+        "holdings the code computes ARE bought minus sold, and a flat position is absent. Depends on the "
+        "specification axioms the standard library declares for its primitive floats / 63-bit integers "
+        "(FloatAxioms.*_spec, Uint63.*_spec) and on the classical real-number axioms (through Flocq).", IMPF, [
+        ("c05f_add_exact", "add_int_exact_strong", "binary64 addition of integer-valued floats is exact when the result is below 2^53 in magnitude …", True),
+        ("c05f_sub_exact", "sub_int_exact_strong", "… so is subtraction …", True),
+        ("c05f_eqb_zero", "eqb_zero_int", "… and the `== 0.0` test that decides whether an entry is dropped agrees with the integer test.", True),
+        ("c05f_ofZ", "int_float_ofZ", "Whole-share quantities exist: the float of an integer below 2^53 is that integer.", True),
+        ("c05f_book_trade", "book_trade_holdings_exact", "One booked trade: float holdings and pending move exactly as the integer model's (add or subtract the quantity, drop the entry when it becomes 0).", True),
+        ("c05f_history", "holdings_whole_shares_exact", "Any list of trades with whole-share quantities, running totals below 2^53: after booking them the float holdings and pending exposure are, key by key and in the same order, the images of the integer model's.", True),
+        ("c05f_integer_ledger", "zholdings_ledger", "The integer model from an empty book: holdings(s) = bought - sold over the trades of s, no zero entry, keys unique …", True),
+        ("c05f_integer_pending_ledger", "zpending_ledger", "… and pending likewise with the opposite sign.", True),
+        ("c05f_holdings_are_bought_minus_sold", "float_holdings_exact_of_volume", "HEADLINE: a broker starting with no holdings and no pending exposure, any trades with whole-share quantities of total volume below 2^53: for every symbol the float holding is exactly bought minus sold (an integer-valued float), and the symbol is absent exactly when that is 0.", True),
+        ("c05f_example", "ex_headline_instance", "Non-vacuity: buy 10, sell 4, sell 6 of ABC from an empty broker — evaluated and instantiated.", True),
+    ])
+
 if "C06" in which:
     gen("C06", "C06 — order gatekeeping: valid orders forwarded exactly once; refusals are inert. Statements only; for "
         "every Num F and EVERY broker state (reachable or not). 'Well-formed' is read as: for a symbol the broker has "
